@@ -1535,9 +1535,9 @@ impl<'a> Gen<'a> {
             let target = match &it {
                 SetItem::Prop { target, .. } | SetItem::Replace { target, .. } | SetItem::Merge { target, .. } | SetItem::Labels { target, .. } => target.clone(),
             };
-            if matches!(it, SetItem::Replace { .. }) && written.contains(&target) {
-                continue;
-            }
+            // (kept since the engine applies SET items and clauses in order: a map replacement
+            // must also remove what the statement itself wrote before)
+            let _ = matches!(it, SetItem::Replace { .. }) && written.contains(&target);
             written.push(target);
             out.push(it);
         }
